@@ -23,7 +23,7 @@ def items(a, thorough):
         out.append(dict(name='c15_short/len=%02d' % L, entry='c15_short', args=[L, 0, 0, 0], timeout=to, loop_limit=100))
     zs = range(387) if thorough else sorted(rnd.sample(range(387), 40))
     for i in zs:
-        out.append(dict(name='c15_zdt_zone/%03d' % i, entry='c15_zdt_zone', args=[i, rnd.randrange(0, 1577923200), 0, 0],
+        out.append(dict(name='c15_zdt_zone/%03d' % i, entry='c15_zdt_zone', args=[i, rnd.randrange(0, 1577923200), rnd.randrange(387), 0],
                         loop_limit=400, reach=0))
     return out
 
